@@ -57,6 +57,10 @@ def S(s: str):
 
 
 def loop(pos: int, iterable):
+    # iterating over list(X) / tuple(X) is iterating over X (the extractor spells it the same way)
+    while isinstance(iterable, tuple) and len(iterable) == 4 and iterable[0] == "call" and iterable[1] in ("list", "tuple") \
+            and len(iterable[2]) == 1 and not iterable[3]:
+        iterable = iterable[2][0]
     return ("loop", pos, "", iterable)
 
 
@@ -529,3 +533,20 @@ def decide_cardinality(emitted, flag_each, relation, n_term, side=()):
         return False, f"undecided ({u})"
     return ok, (f"count {relation} n for every count, n and list size ({wit})" if ok else
                 f"differs from `count {relation} n` for {wit['values']} (emitted {wit['first']}, documented {wit['second']})")
+
+
+def rejects_an_element(ev, list_term, attr: str) -> bool:
+    """does this raise event reject the element list when SOME element fails a test on `attr`?  Accepted spellings:
+    a raise inside a loop over the list under a guard that reads `attr`; or a raise after the loop whose guard is an
+    existential over the list - any(...), not all(...), next((e for e in list if ...), None) is not None, a non-empty filtered
+    list - whose filter / body reads `attr`"""
+    from .decide import norm as _n
+    want = _n(list_term)
+    if ev.loops and _n(ev.loops[0][3]) == want and any(attr in show(g) for g in ev.guards):
+        return True
+    for g in ev.guards:
+        for x in subterms(g):
+            if isinstance(x, tuple) and x and x[0] == "each" and x[1] and _n(x[1][0][3]) == want \
+                    and (any(attr in show(c) for c in x[2]) or attr in show(x[3])):
+                return True
+    return False
